@@ -1560,7 +1560,7 @@ fn shared_case(msgs: &[MsgSpec], runs: Vec<(usize, u8, Vec<u64>)>, family: &str,
     }
     let evs = clist(&views.iter().map(|v| format!("({}, {}, {})", cnums(&v.visible.iter().map(|i| rank(*i)).collect::<Vec<_>>()), v.index, rank(v.lc))).collect::<Vec<_>>());
     let runs_coq = clist(&runs.iter().map(|(c, _, s)| format!("({}, {})", c, cnums(s))).collect::<Vec<_>>());
-    let input_coq = format!("inr (inr ({}, {}, {}))", evs, cnums(&fin.iter().map(|i| rank(*i)).collect::<Vec<_>>()), runs_coq);
+    let input_coq = format!("inr (inr (inl ({}, {}, {})))", evs, cnums(&fin.iter().map(|i| rank(*i)).collect::<Vec<_>>()), runs_coq);
     SharedDone { msgs: msgs.to_vec(), runs, input_coq, obs: O::T(obs), verdict, tags }
 }
 
@@ -1574,6 +1574,383 @@ fn push_shared(sink: &mut Sink, d: SharedDone) {
     let nontrivial = d.msgs.len() >= 3;
     let id = sink.next_id();
     sink.push(Case { id, input_coq: d.input_coq, input_json, obs: d.obs, verdict: d.verdict, classes: vec![], tags: d.tags, nontrivial, key });
+}
+
+
+// ================================================================== remote wiring (adlt remote, process_file_context)
+// parser -> lifecycle -> [plugins] -> [sort] -> bounded channel -> process_file_context -> websocket -> client.
+// The consumer end forwards the lifecycle table entries that changed; the client keeps the last info per lifecycle.
+// Schedule points compiled into the binary under cfg(adlt_verif) (ADLT_VERIF_DELAY) make pacings reachable in which a
+// consumer tick ends between the last message and the lifecycle stage's final publication.
+mod remote {
+    use super::*;
+    use adlt::utils::remote_types::{self, BinType};
+    use std::io::{BufRead, BufReader, Write};
+    use std::net::TcpStream;
+    use std::process::{Child, Command, Stdio};
+    use tungstenite::stream::MaybeTlsStream;
+    use tungstenite::{Message, WebSocket};
+
+    const BINCODE_CONFIG: bincode::config::Configuration<bincode::config::LittleEndian, bincode::config::Fixint, bincode::config::NoLimit> =
+        bincode::config::legacy();
+
+    pub fn adlt_bin() -> Option<String> {
+        std::env::var("VERIF_ADLT_BIN").ok().filter(|p| std::path::Path::new(p).exists())
+    }
+
+    pub struct Server {
+        child: Child,
+        pub port: u16,
+    }
+    impl Server {
+        pub fn start(delay: &str) -> Option<Server> {
+            let bin = adlt_bin()?;
+            for _ in 0..20 {
+                let port = portpicker::pick_unused_port()?;
+                let mut cmd = Command::new(&bin);
+                cmd.args(["remote", "-p", &format!("{}", port)]).stdin(Stdio::null()).stdout(Stdio::piped()).stderr(Stdio::null());
+                if delay.is_empty() {
+                    cmd.env_remove("ADLT_VERIF_DELAY");
+                } else {
+                    cmd.env("ADLT_VERIF_DELAY", delay);
+                }
+                let mut child = cmd.spawn().ok()?;
+                let out = child.stdout.take().unwrap();
+                let mut rd = BufReader::new(out);
+                let mut line = String::new();
+                let _ = rd.read_line(&mut line);
+                if line.contains("remote server listening") {
+                    std::thread::spawn(move || {
+                        let mut l = String::new();
+                        while rd.read_line(&mut l).map(|n| n > 0).unwrap_or(false) {
+                            l.clear();
+                        }
+                    });
+                    return Some(Server { child, port });
+                }
+                let _ = child.kill();
+                let _ = child.wait();
+            }
+            None
+        }
+    }
+    impl Drop for Server {
+        fn drop(&mut self) {
+            let _ = self.child.kill();
+            let _ = self.child.wait();
+        }
+    }
+
+    /// a lifecycle as the client is told: ecu, nr_msgs, start, end, resume + 1 (0 = none)
+    pub type Row = [u64; 5];
+
+    pub struct Client {
+        ws: WebSocket<MaybeTlsStream<TcpStream>>,
+        pub file_infos: Vec<u32>,
+        pub lcs: std::collections::BTreeMap<u32, Row>,
+        pub lc_frames: usize,
+        pub dead: Option<String>,
+    }
+    impl Client {
+        pub fn connect(port: u16) -> Option<Client> {
+            let t0 = Instant::now();
+            loop {
+                match tungstenite::client::connect(format!("ws://127.0.0.1:{}", port)) {
+                    Ok((ws, _)) => {
+                        if let MaybeTlsStream::Plain(s) = ws.get_ref() {
+                            s.set_read_timeout(Some(Duration::from_millis(20_000))).ok()?;
+                            s.set_nodelay(true).ok()?;
+                        }
+                        return Some(Client { ws, file_infos: vec![], lcs: Default::default(), lc_frames: 0, dead: None });
+                    }
+                    Err(_) => {
+                        if t0.elapsed() > Duration::from_secs(10) {
+                            return None;
+                        }
+                        std::thread::sleep(Duration::from_millis(10));
+                    }
+                }
+            }
+        }
+        fn read(&mut self) -> Option<Option<String>> {
+            if self.dead.is_some() {
+                return None;
+            }
+            match self.ws.read_message() {
+                Ok(Message::Text(t)) => Some(Some(t)),
+                Ok(Message::Binary(d)) => {
+                    match bincode::decode_from_slice::<remote_types::BinType, _>(&d, BINCODE_CONFIG) {
+                        Ok((BinType::FileInfo(f), _)) => self.file_infos.push(f.nr_msgs),
+                        Ok((BinType::Lifecycles(l), _)) => {
+                            self.lc_frames += 1;
+                            for x in l {
+                                self.lcs.insert(x.id, [x.ecu as u64, x.nr_msgs as u64, x.start_time, x.end_time, x.resume_time.map_or(0, |r| r + 1)]);
+                            }
+                        }
+                        _ => {}
+                    }
+                    Some(None)
+                }
+                Ok(_) => Some(None),
+                Err(e) => {
+                    self.dead = Some(format!("read: {:?}", e));
+                    None
+                }
+            }
+        }
+        pub fn cmd(&mut self, s: &str, prefixes: &[&str]) -> Option<String> {
+            if let Err(e) = self.ws.write_message(Message::Text(s.to_string())) {
+                self.dead = Some(format!("send: {:?}", e));
+                return None;
+            }
+            loop {
+                if let Some(t) = self.read()? {
+                    if prefixes.iter().any(|p| t.starts_with(p)) {
+                        return Some(t);
+                    }
+                }
+            }
+        }
+        /// the server loop runs one complete process_file_context between two commands
+        pub fn sync(&mut self, n: usize) {
+            for _ in 0..n {
+                if self.cmd("resume", &["ok: resume", "err: resume"]).is_none() {
+                    return;
+                }
+            }
+        }
+        /// the server announces nr_msgs == n with the last batch and once more when the parser threads have finished
+        pub fn wait_finished(&mut self, n: u32) -> bool {
+            let t0 = Instant::now();
+            loop {
+                if self.file_infos.iter().filter(|x| **x == n).count() >= 2 {
+                    return true;
+                }
+                if self.dead.is_some() || t0.elapsed() > Duration::from_secs(30) {
+                    return false;
+                }
+                self.sync(1);
+            }
+        }
+    }
+
+    #[derive(Clone, Debug)]
+    pub struct RemoteCase {
+        pub msgs: Vec<MsgSpec>,
+        pub family: String,
+        pub sorted: bool,
+        pub plugin: bool,
+        pub delay: String,  // ADLT_VERIF_DELAY of the server
+        pub stall_ms: u64,  // the client does not read for that long after the open
+        pub sched: Vec<u64>, // interleaving for the model
+    }
+    impl RemoteCase {
+        pub fn json(&self) -> Value {
+            json!({"remote": true, "msgs": self.msgs, "family": self.family, "sorted": self.sorted, "plugin": self.plugin, "delay": self.delay, "stall_ms": self.stall_ms, "sched": self.sched})
+        }
+        pub fn from_json(v: &Value) -> RemoteCase {
+            RemoteCase {
+                msgs: serde_json::from_value(v["msgs"].clone()).unwrap(),
+                family: v["family"].as_str().unwrap_or("replay").to_string(),
+                sorted: v["sorted"].as_bool().unwrap(),
+                plugin: v["plugin"].as_bool().unwrap(),
+                delay: v["delay"].as_str().unwrap().to_string(),
+                stall_ms: v["stall_ms"].as_u64().unwrap(),
+                sched: serde_json::from_value(v["sched"].clone()).unwrap(),
+            }
+        }
+    }
+
+    fn table_rows(lcs_r: &LcsR) -> Vec<(u32, Row)> {
+        let mut v = vec![];
+        if let Some(r) = lcs_r.read() {
+            for (id, bag) in &r {
+                if let Some(lc) = bag.get_one() {
+                    let lc: &Lifecycle = lc;
+                    if !lc.only_control_requests() {
+                        v.push((*id, [lc.ecu.as_u32le() as u64, lc.nr_msgs as u64, lc.resume_start_time(), lc.end_time(), if lc.is_resume() { lc.resume_time() + 1 } else { 0 }]));
+                    }
+                }
+            }
+        }
+        v.sort();
+        v
+    }
+
+    /// the truth: the library's lifecycle stage on the messages of the file as the library's iterator reads them:
+    /// (number of messages, table when the last message is handed over, final table)
+    pub fn library_truth(path: &std::path::Path) -> Result<(usize, Vec<(u32, Row)>, Vec<(u32, Row)>), String> {
+        let bytes = std::fs::read(path).map_err(|e| e.to_string())?;
+        catch(move || {
+            let msgs: Vec<DltMessage> = adlt::utils::DltMessageIterator::new(0, std::io::Cursor::new(bytes)).collect();
+            let n = msgs.len();
+            let (lcs_r, lcs_w) = evmap::Options::default().with_hasher(Hasher::default()).construct::<LifecycleId, LifecycleItem>();
+            let (tx, rx) = std::sync::mpsc::channel();
+            for m in msgs {
+                tx.send(m).unwrap();
+            }
+            drop(tx);
+            let pre = std::cell::RefCell::new(vec![]);
+            let w = parse_lifecycles_buffered_from_stream(lcs_w, rx, &|_m: DltMessage| {
+                *pre.borrow_mut() = table_rows(&lcs_r);
+                Ok(())
+            });
+            let fin = table_rows(&lcs_r);
+            drop(w);
+            (n, pre.into_inner(), fin)
+        })
+    }
+
+    pub struct RemoteDone {
+        pub c: RemoteCase,
+        pub input_coq: String,
+        pub obs: O,
+        pub verdict: Verdict,
+        pub tags: Vec<String>,
+        pub wall_ms: u128,
+    }
+
+    fn rows_o(rows: &[Row]) -> O {
+        O::T(rows.iter().map(|r| O::T(r.iter().map(|x| O::n(*x)).collect())).collect())
+    }
+    fn rows_coq(rows: &[Row]) -> String {
+        clist(&rows.iter().map(|r| cnums(&r[..])).collect::<Vec<_>>())
+    }
+
+    pub fn run_remote(port: u16, c: &RemoteCase, dir: &std::path::Path, uniq: u64) -> RemoteDone {
+        let t0 = Instant::now();
+        let fail = |cl: &str, d: String| Verdict::Fail { clause: cl.into(), detail: d };
+        let path = dir.join(format!("r{}.dlt", uniq));
+        {
+            let mut f = std::io::BufWriter::new(std::fs::File::create(&path).unwrap());
+            for (i, m) in c.msgs.iter().enumerate() {
+                build_msg(i, m).to_write(&mut f).unwrap();
+            }
+            f.flush().unwrap();
+        }
+        let mut tags = vec!["remote".to_string(), format!("remote_family_{}", c.family), format!("remote_{}", if c.sorted { "sorted" } else { "unsorted" })];
+        if c.plugin {
+            tags.push("remote_plugin".into());
+        }
+        if c.stall_ms > 0 {
+            tags.push("remote_client_stalls".into());
+        }
+        for d in c.delay.split(',').filter(|x| !x.is_empty()) {
+            tags.push(format!("remote_delay_{}", d.split('=').next().unwrap_or("")));
+        }
+        if c.delay.is_empty() {
+            tags.push("remote_delay_none".into());
+        }
+        let (n, pre, fin) = match library_truth(&path) {
+            Ok(x) => x,
+            Err(e) => {
+                return RemoteDone { c: c.clone(), input_coq: "inr (inr (inr ([], [], 0, [])))".into(), obs: O::T(vec![O::L(0), O::T(vec![])]), verdict: fail("library_run", e), tags, wall_ms: 0 };
+            }
+        };
+        let pre_rows: Vec<Row> = pre.iter().map(|x| x.1).collect();
+        let fin_rows: Vec<Row> = fin.iter().map(|x| x.1).collect();
+        if pre_rows != fin_rows {
+            tags.push("remote_final_refresh_carries_news".into());
+        }
+        let input_coq = format!("inr (inr (inr ({}, {}, {}, {})))", rows_coq(&pre_rows), rows_coq(&fin_rows), n, cnums(&c.sched));
+        let mut verdict = Verdict::Ok;
+        let mut client_rows: Vec<Row> = vec![];
+        let mut announced = 0u32;
+        match Client::connect(port) {
+            None => verdict = fail("connect", "cannot connect to adlt remote".into()),
+            Some(mut cl) => {
+                let mut open_js = json!({"sort": c.sorted, "collect": false, "files": [path.to_str().unwrap()]});
+                if c.plugin {
+                    open_js["plugins"] = json!([{"name": "FileTransfer", "allowSave": false}]);
+                }
+                let open = cl.cmd(&format!("open {}", open_js), &["ok: open", "err: open"]);
+                if !open.as_deref().unwrap_or("").starts_with("ok: open") {
+                    verdict = fail("open", format!("{:?} {:?}", open, cl.dead));
+                } else {
+                    if c.stall_ms > 0 {
+                        std::thread::sleep(Duration::from_millis(c.stall_ms));
+                    }
+                    let finished = cl.wait_finished(n as u32);
+                    // let the stream settle: several complete ticks after the parser threads have finished
+                    cl.sync(4);
+                    announced = cl.file_infos.last().copied().unwrap_or(0);
+                    client_rows = cl.lcs.values().copied().collect();
+                    let closed = cl.cmd("close", &["ok: 'close'", "err: close"]);
+                    if !finished {
+                        verdict = fail("parser_finishes", format!("the end of parsing was not announced within 30 s ({} messages, file infos {:?}, dead {:?})", n, cl.file_infos, cl.dead));
+                    } else if announced as usize != n {
+                        verdict = fail("client_message_count", format!("the client was told {} messages, the file has {}", announced, n));
+                    } else if client_rows != fin_rows {
+                        verdict = fail(
+                            "client_final_table_equals_library_table",
+                            format!("delays [{}], client stall {} ms: the client holds {:?}, the lifecycle stage's final table is {:?} (table at the last message: {:?})", c.delay, c.stall_ms, client_rows, fin_rows, pre_rows),
+                        );
+                    } else if !closed.as_deref().unwrap_or("").starts_with("ok: 'close'") {
+                        verdict = fail("close_answered", format!("{:?} {:?}", closed, cl.dead));
+                    }
+                }
+            }
+        }
+        let _ = std::fs::remove_file(&path);
+        let obs = O::T(vec![O::n(announced as u64), rows_o(&client_rows)]);
+        RemoteDone { c: c.clone(), input_coq, obs, verdict, tags, wall_ms: t0.elapsed().as_millis() }
+    }
+
+    pub fn gen_settings(rng: &mut Rng, n: usize) -> Vec<String> {
+        let mut v = vec![String::new()];
+        let d = |rng: &mut Rng, lo: u64, hi: u64| rng.range(lo, hi);
+        while v.len() < n {
+            let s = match v.len() % 7 {
+                1 => format!("lc_before_final_refresh={}", d(rng, 30, 80)),
+                2 => format!("lc_before_final_flush={}", d(rng, 30, 80)),
+                3 => format!("remote_after_drain={}", d(rng, 1, 20)),
+                4 => format!("lc_before_final_refresh={},remote_after_drain={}", d(rng, 30, 80), d(rng, 1, 20)),
+                5 => format!("lc_before_final_flush={},lc_before_final_refresh={}", d(rng, 30, 80), d(rng, 30, 80)),
+                6 => format!("lc_before_final_flush={},remote_after_drain={}", d(rng, 30, 80), d(rng, 1, 20)),
+                _ => format!("lc_before_final_flush={},lc_before_final_refresh={},remote_after_drain={}", d(rng, 30, 60), d(rng, 30, 60), d(rng, 1, 10)),
+            };
+            v.push(s);
+        }
+        v
+    }
+
+    pub fn gen_case(rng: &mut Rng, i: usize, delay: &str, max: u64) -> RemoteCase {
+        // the first two sessions of every delay setting are unsorted, without plugin, on traces whose lifecycles are confirmed
+        // and go on: the final refresh of the lifecycle stage then carries news
+        let (msgs, family) = match i % 5 {
+            1 | 3 => {
+                let (m, f) = gen_lc_prefix(rng, (i / 2 % 2) as u64, max.max(8));
+                (m, f)
+            }
+            2 => (gen_double_reboot_end(rng, max, false), "double_reboot_end".to_string()),
+            0 => {
+                // tidy: 1..3 ecus running for 70..150 s, one message every second or so: confirmed lifecycles, direct forwards
+                let necu = rng.range(1, 3);
+                let n = rng.range(10, max.max(12));
+                let span = rng.range(70, 150) * 1_000_000;
+                let m = (0..n).map(|k| ((k % necu) as u8 + 1, RHO + 1000 + k * span / n + (k % necu) * 10, ((1000 + k * span / n) / 100) as u32, 0u8)).collect();
+                (m, "tidy".to_string())
+            }
+            _ => (gen_double_reboot_end(rng, max, true), "double_reboot_end".to_string()),
+        };
+        let msgs = if msgs.len() < 3 { (0..5).map(|k| (1u8, RHO + 1000 + k * 1_000_000, (10 + k * 10_000) as u32, 0u8)).collect() } else { msgs };
+        RemoteCase {
+            msgs,
+            family: family.split('@').next().unwrap().to_string(),
+            sorted: i >= 2 && rng.chance(1, 2),
+            plugin: i >= 2 && rng.chance(1, 3),
+            delay: delay.to_string(),
+            stall_ms: if rng.chance(1, 3) { rng.range(30, 150) } else { 0 },
+            sched: (0..40).map(|_| rng.below(60)).collect(),
+        }
+    }
+
+    pub fn push(sink: &mut Sink, d: RemoteDone) {
+        let input_json = d.c.json();
+        let key = input_json.to_string();
+        let id = sink.next_id();
+        sink.push(Case { id, input_coq: d.input_coq, input_json, obs: d.obs, verdict: d.verdict, classes: vec![], tags: d.tags, nontrivial: true, key });
+    }
 }
 
 fn corpus() -> Vec<Pipeline> {
@@ -1623,6 +2000,16 @@ fn main() {
 
     if let Some(f) = &a.replay {
         let v = read_replay(f);
+        if v["case"]["remote"].as_bool() == Some(true) {
+            let c = remote::RemoteCase::from_json(&v["case"]);
+            let dir = tempfile::tempdir().unwrap();
+            match remote::Server::start(&c.delay) {
+                Some(srv) => remote::push(&mut sink, remote::run_remote(srv.port, &c, dir.path(), 0)),
+                None => panic!("VERIF_ADLT_BIN not available"),
+            }
+            sink.finish();
+            return;
+        }
         if v["case"]["shared"].as_bool() == Some(true) {
             let msgs: Vec<MsgSpec> = serde_json::from_value(v["case"]["msgs"].clone()).unwrap();
             let runs: Vec<(usize, u8, Vec<u64>)> = serde_json::from_value(v["case"]["runs"].clone()).unwrap();
@@ -1667,37 +2054,65 @@ fn main() {
         "search" => 18,
         _ => 120,
     };
-    for i in 0..n_reader_pipes {
-        pipes.push(gen_reader_pipeline(&mut rng, i, max_msgs));
-    }
+    let readers: Vec<Pipeline> = (0..n_reader_pipes).map(|i| gen_reader_pipeline(&mut rng, i, max_msgs)).collect();
     // jobs: (pipeline, script seeds); the reference run is done by the worker once per pipeline
-    let jobs: Vec<(usize, Pipeline, u64)> = pipes.into_iter().enumerate().map(|(i, p)| (i, p, rng.next())).collect();
-    let njobs = jobs.len();
-    let queue = Arc::new(Mutex::new(jobs));
     let results: Arc<Mutex<Vec<(usize, usize, Done)>>> = Arc::new(Mutex::new(vec![]));
     let workers: usize = std::env::var("C13_WORKERS").ok().and_then(|s| s.parse().ok()).unwrap_or(10);
-    let mut ws = vec![];
-    for _ in 0..workers {
-        let queue = queue.clone();
-        let results = results.clone();
-        ws.push(std::thread::spawn(move || loop {
-            let job = queue.lock().unwrap().pop();
-            let (i, p, seed) = match job {
-                Some(j) => j,
-                None => break,
-            };
-            let mut rng = Rng::new(seed);
-            let r = run_real(&p, &reference_script(&p), hang);
-            for v in 0..nvec {
-                let s = gen_script(&mut rng, &p, v, r.delivered.len());
-                let d = run_case(&p, &s, &r, hang);
-                results.lock().unwrap().push((i, v, d));
-            }
-        }));
-    }
-    for w in ws {
-        let _ = w.join();
-    }
+    let run_pool = |jobs: Vec<(usize, Pipeline, u64)>, delay_tag: Option<&'static str>| {
+        let queue = Arc::new(Mutex::new(jobs));
+        let mut ws = vec![];
+        for _ in 0..workers {
+            let queue = queue.clone();
+            let results = results.clone();
+            ws.push(std::thread::spawn(move || loop {
+                let job = queue.lock().unwrap().pop();
+                let (i, p, seed) = match job {
+                    Some(j) => j,
+                    None => break,
+                };
+                let mut rng = Rng::new(seed);
+                let r = run_real(&p, &reference_script(&p), hang);
+                for v in 0..nvec {
+                    let s = gen_script(&mut rng, &p, v, r.delivered.len());
+                    let mut d = run_case(&p, &s, &r, hang);
+                    if let Some(t) = delay_tag {
+                        d.tags.push(t.to_string());
+                    }
+                    results.lock().unwrap().push((i, v, d));
+                }
+            }));
+        }
+        for w in ws {
+            let _ = w.join();
+        }
+    };
+    let mut next = 0usize;
+    let mut mk_jobs = |ps: Vec<Pipeline>, rng: &mut Rng| -> Vec<(usize, Pipeline, u64)> {
+        let v: Vec<(usize, Pipeline, u64)> = ps.into_iter().map(|p| { next += 1; (next - 1, p, rng.next()) }).collect();
+        v
+    };
+    let jobs = mk_jobs(pipes, &mut rng);
+    run_pool(jobs, None);
+    // the reader pipelines once more under the in-process schedule points of the lifecycle stage (process wide, hence in
+    // phases of their own): the stage pauses before its final flush / before its final refresh while the stage behind it
+    // looks the table up
+    let third = (readers.len() + 2) / 3;
+    let mut it = readers.into_iter();
+    let g0: Vec<Pipeline> = it.by_ref().take(third).collect();
+    let g1: Vec<Pipeline> = it.by_ref().take(third).collect();
+    let g2: Vec<Pipeline> = it.collect();
+    let jobs = mk_jobs(g0, &mut rng);
+    run_pool(jobs, None);
+    let pause = rng.range(15, 40);
+    adlt::utils::verif_sched::set_delay("lc_before_final_flush", Some(pause));
+    let jobs = mk_jobs(g1, &mut rng);
+    run_pool(jobs, Some("sched_point_lc_before_final_flush"));
+    adlt::utils::verif_sched::set_delay("lc_before_final_flush", None);
+    adlt::utils::verif_sched::set_delay("lc_before_final_refresh", Some(pause));
+    let jobs = mk_jobs(g2, &mut rng);
+    run_pool(jobs, Some("sched_point_lc_before_final_refresh"));
+    adlt::utils::verif_sched::set_delay("lc_before_final_refresh", None);
+    let njobs = next;
     let mut res = std::mem::take(&mut *results.lock().unwrap());
     res.sort_by_key(|(i, v, _)| (*i, *v));
     let mut full_total = 0usize;
@@ -1758,31 +2173,97 @@ fn main() {
         let runs = gen_shared_runs(&mut rng);
         sjobs.push((i, msgs, fam, runs));
     }
-    let sq = Arc::new(Mutex::new(sjobs));
     let sres: Arc<Mutex<Vec<(usize, SharedDone)>>> = Arc::new(Mutex::new(vec![]));
-    let mut ws = vec![];
-    for _ in 0..workers.min(8) {
-        let (sq, sres) = (sq.clone(), sres.clone());
-        ws.push(std::thread::spawn(move || loop {
-            let job = sq.lock().unwrap().pop();
-            match job {
-                Some((i, msgs, fam, runs)) => {
-                    let d = shared_case(&msgs, runs, fam, hang);
-                    sres.lock().unwrap().push((i, d));
+    let half = sjobs.len() / 2;
+    let second: Vec<_> = sjobs.split_off(half);
+    for (phase, part) in [sjobs, second].into_iter().enumerate() {
+        if phase == 1 {
+            // the lifecycle stage pauses before its final flush and before its final refresh
+            adlt::utils::verif_sched::set_delay("lc_before_final_flush", Some(20));
+            adlt::utils::verif_sched::set_delay("lc_before_final_refresh", Some(20));
+        }
+        let sq = Arc::new(Mutex::new(part));
+        let mut ws = vec![];
+        for _ in 0..workers.min(8) {
+            let (sq, sres) = (sq.clone(), sres.clone());
+            ws.push(std::thread::spawn(move || loop {
+                let job = sq.lock().unwrap().pop();
+                match job {
+                    Some((i, msgs, fam, runs)) => {
+                        let mut d = shared_case(&msgs, runs, fam, hang);
+                        if phase == 1 {
+                            d.tags.push("sched_points_lc_final_flush_and_refresh".into());
+                        }
+                        sres.lock().unwrap().push((i, d));
+                    }
+                    None => break,
                 }
-                None => break,
-            }
-        }));
+            }));
+        }
+        for w in ws {
+            let _ = w.join();
+        }
     }
-    for w in ws {
-        let _ = w.join();
-    }
+    adlt::utils::verif_sched::set_delay("lc_before_final_flush", None);
+    adlt::utils::verif_sched::set_delay("lc_before_final_refresh", None);
     let mut sr = std::mem::take(&mut *sres.lock().unwrap());
     sr.sort_by_key(|(i, _)| *i);
     let n_shared_done = sr.len();
     for (_, d) in sr {
         push_shared(&mut sink, d);
     }
+    // remote wiring: one server per delay setting, its sessions one after the other; the settings in parallel
+    let (n_settings, per_setting) = match a.tier.as_str() {
+        "quick" => (8usize, 5usize),
+        "search" => (8, 6),
+        _ => (16, 12),
+    };
+    let mut n_remote = 0usize;
+    if remote::adlt_bin().is_none() && std::env::var("C13_NO_REMOTE").is_err() {
+        panic!("VERIF_ADLT_BIN is not set / does not exist: the remote wiring family cannot run (set C13_NO_REMOTE=1 to skip it in a manual run)");
+    }
+    if remote::adlt_bin().is_some() {
+        let settings = remote::gen_settings(&mut rng, n_settings);
+        let mut groups = vec![];
+        for (gi, st) in settings.iter().enumerate() {
+            let cases: Vec<remote::RemoteCase> = (0..per_setting).map(|i| remote::gen_case(&mut rng, i, st, max_msgs)).collect();
+            groups.push((gi, st.clone(), cases));
+        }
+        let gq = Arc::new(Mutex::new(groups));
+        let rres: Arc<Mutex<Vec<(usize, usize, remote::RemoteDone)>>> = Arc::new(Mutex::new(vec![]));
+        let mut ws = vec![];
+        for _ in 0..n_settings.min(8) {
+            let (gq, rres) = (gq.clone(), rres.clone());
+            ws.push(std::thread::spawn(move || loop {
+                let job = gq.lock().unwrap().pop();
+                match job {
+                    Some((gi, st, cases)) => {
+                        let dir = tempfile::tempdir().unwrap();
+                        if let Some(srv) = remote::Server::start(&st) {
+                            for (i, c) in cases.iter().enumerate() {
+                                let d = remote::run_remote(srv.port, c, dir.path(), (gi * 1000 + i) as u64);
+                                rres.lock().unwrap().push((gi, i, d));
+                            }
+                        }
+                    }
+                    None => break,
+                }
+            }));
+        }
+        for w in ws {
+            let _ = w.join();
+        }
+        let mut rr = std::mem::take(&mut *rres.lock().unwrap());
+        rr.sort_by_key(|(g, i, _)| (*g, *i));
+        n_remote = rr.len();
+        assert_eq!(n_remote, n_settings * per_setting, "an adlt remote server could not be started");
+        let slowest = rr.iter().map(|x| x.2.wall_ms).max().unwrap_or(0);
+        for (_, _, d) in rr {
+            remote::push(&mut sink, d);
+        }
+        sink.extra_stats.insert("remote_slowest_session_ms".into(), json!(slowest as u64));
+    }
+    sink.extra_stats.insert("remote_sessions".into(), json!(n_remote));
     sink.extra_stats.insert("shared_table_cases".into(), json!(n_shared_done));
     sink.extra_stats.insert("loss_scenarios".into(), json!(n_loss));
     sink.extra_stats.insert("loss_runs_of_a_real_stage".into(), json!(loss_runs));
